@@ -116,3 +116,30 @@ def pairHandler : Handler
   | _ => none
 
 end Sqlize.Driver
+
+namespace Sqlize.Driver
+open Sqlize Sqlize.Codec Sqlize.Spec
+
+/-- (case id routes cfg route1 route2 (stmts…) errs up down): the same schema by two routes must diff to nothing -/
+def routesHandler : Handler
+  | [cfg, r1, r2, stmts, errs, up, down] => do
+    let g ← decodeCfg cfg
+    let r1 ← r1.str?; let r2 ← r2.str?
+    let ss ← decodeStmts stmts
+    let errs ← errs.str?; let up ← up.str?; let down ← down.str?
+    let region : Option String := match execAll true [] ss with
+      | none => some "excluded:ill-formed-input"
+      | some db =>
+        (Scope.c03 g db db ss ss).orElse fun _ =>
+          if g.dialect == .sqlite then some "sqlite-reader-vocabulary"
+          else if g.dialect == .postgres && !(Scope.pgFragment "" ss) then some "postgres-reader-vocabulary"
+          else if g.dialect == .postgres && (r1 == "canonical" || r2 == "canonical") then some "postgres-reader-vocabulary"
+          else if g.dialect == .postgres && (r1 == "own-dump" || r2 == "own-dump") then some "postgres-migrations-not-rereadable"
+          else none
+    let r : Check := do
+      check (errs == "ok,ok,ok") s!"loading by route {r1} / {r2} failed: {errs}"
+      check (up == "" && down == "") s!"the same schema loaded by routes {r1} and {r2} gives a non-empty migration: up={SExp.quote up} down={SExp.quote down}"
+    some (judge "C03" region r)
+  | _ => none
+
+end Sqlize.Driver
